@@ -708,6 +708,60 @@ def add_prefix_readers(pack):
     c.replay(lambda m, ctx, ob: LOC_REPLAY)
     c.replay_without_model = True
 
+    # ---- #tag form: the token after the # need not be a symbol (#nil, #true and #false read as nil / true / false)
+    from basilisp.lang import symbol as symmod_
+
+    def tag_setup(eng, st):
+        macro_setup(eng, st)
+        eng.class_id(symmod_.Symbol)
+        lid_ = eng.class_id(list)
+        # (an unbounded deque used as a stack, modelled as a list like _syntax_quoted)
+        eng.field_types[("ReaderContext", "_process_tagged_literals")] = lambda v: (z3.And(V.is_ref(v), V.cls_of(V.Val.a(v)) == lid_), list)
+        eng.field_types[("Symbol", "_name")] = lambda v: V.is_str(v)
+        eng.field_types[("Symbol", "_ns")] = lambda v: z3.Or(V.is_str(v), V.is_none(v))
+
+        def read_sym(e, s, a, k):
+            # by the contract of _read_sym (C09 pack): a symbol, or nil / true / false for those three names, or a syntax error
+            ctx = e.lift(a[0], s)
+            r = fld(s, ctx, "_reader")
+            e.havoc_heap(s, ["_idx"])
+            s.assume(WF(e, s, r))
+            outs = [s.copy() for _ in range(4)]
+            o = e.alloc(s, symmod_.Symbol)
+            e.store_field(s, o.t, "_name", V.mk_str(z3.String(V.fresh_name("tag_name"))), None)
+            e.store_field(s, o.t, "_ns", V.fresh_val("tag_ns"), None)
+            e.store_field(s, o.t, "_meta", V.VNone, None)
+            yield s, o
+            yield outs[0], None
+            yield outs[1], True
+            yield outs[2], False
+            yield outs[3], Raise(Exc(rd.SyntaxError, ("syntax error",), note="raised by _read_sym"))
+
+        eng.models[id(rd._read_sym)] = Model("_read_sym (by contract: a symbol, nil / true / false, or a syntax error)", read_sym)
+
+        def some_form(e, s, a, k):
+            s2 = s.copy()
+            res = V.fresh_val("form")
+            s.assume(e.external_ref_fact(s, res))
+            yield s, SV(res)
+            yield s2, Raise(Exc(rd.SyntaxError, ("syntax error",), note="raised by the callee"))
+
+        for fn_ in (rd._read_byte_str, rd._read_fstr, rd._read_owed_form, rd._resolve_tagged_literal):
+            eng.models[id(fn_)] = Model(f"{fn_.__name__} (by contract: a form or a syntax error)", some_form)
+        eng.models[id(rd.tagged_literal)] = Model("tagged_literal (a value)", lambda e, s, a, k: iter([(s, SV(V.fresh_val("tagged")))]))
+
+    c = pack.contract("basilisp.lang.reader:_read_reader_macro")
+    c.label = "a tag"
+    c.param("ctx", OBJ(RC))
+    c.setup(tag_setup)
+    c.requires("the stream reader is well-formed and stands on a # that is followed by a character outside the dispatch table",
+               lambda a: z3.And(WF(a.eng, a.pre.st, reader_of(a)), CH(pos(a.pre.st, reader_of(a))) == V.mk_str("#"),
+                                *[CH(pos(a.pre.st, reader_of(a)) + 1) != V.mk_str(ch) for ch in rd._read_macro_dispatch]))
+    c.raises(rd.SyntaxError)
+    c.ensures("", lambda a: z3.BoolVal(True))
+    c.replay(lambda m, ctx, ob: STRLIT_REPLAY)
+    c.replay_without_model = True
+
     # ---- #?( ... ): the wrapper that shortens tracebacks must not turn "more input needed" into "malformed"
     def cond_setup(eng, st):
         psetup(eng, st)
@@ -1373,10 +1427,74 @@ def add_prefix_readers(pack):
     c.replay(lambda m, ctx, ob: STRLIT_REPLAY)
     c.replay_without_model = True
 
+    # ---- #"...": the pattern compiler may reject the text in more than one way
+    import re as _re2
+
+    def regex_setup(eng, st):
+        psetup(eng, st)
+
+        def read_str(e, s, a, k):
+            r = fld(s, e.lift(a[0], s), "_reader")
+            s.ghost["n_read"] = z3.Int(V.fresh_name("n_read"))
+            e.havoc_heap(s, ["_idx"])
+            for nm in ("dqv", "dqn"):
+                if nm in s.aux:
+                    s.aux[nm] = z3.Const(V.fresh_name(nm), s.aux[nm].sort())
+            s.assume(WF(e, s, r))
+            s2, s3 = s.copy(), s.copy()
+            yield s, SV(V.mk_str(z3.String(V.fresh_name("pattern_text"))))
+            s2.ghost["inner_exc"] = "eof"
+            yield s2, Raise(Exc(rd.UnexpectedEOFError, ("Unexpected EOF in string",), note="raised by _read_str"))
+            s3.ghost["inner_exc"] = "syntax"
+            yield s3, Raise(Exc(rd.SyntaxError, ("syntax error",), note="raised by _read_str"))
+
+        eng.models[id(rd._read_str)] = Model("_read_str (by contract: a string, or a syntax error of the right kind)", read_str)
+
+        def compile_(e, s, a, k):
+            # trusted (re.compile): a Pattern, or re.error for a malformed pattern, or OverflowError for a repetition count beyond the engine's limit
+            r = V.fresh_val("pattern")
+            s.assume(e.external_ref_fact(s, r))
+            yield s, SV(r)
+            yield s.copy(), Raise(Exc(_re2.error, ("bad pattern",), note="malformed pattern"))
+            yield s.copy(), Raise(Exc(OverflowError, ("the repetition number is too large",), note="a repetition count beyond the regex engine's limit"))
+
+        eng.models[id(langutil_.regex_from_str)] = Model("langutil.regex_from_str (trusted: Pattern, re.error or OverflowError)", compile_)
+
+    c = pack.contract("basilisp.lang.reader:_read_regex")
+    c.param("ctx", OBJ(RC))
+    c.setup(regex_setup)
+    c.requires("the stream reader is well-formed", lambda a: WF(a.eng, a.pre.st, reader_of(a)))
+    c.raises(rd.SyntaxError)
+    c.ensures_on_raise("the text ending inside the pattern stays UnexpectedEOFError; a pattern the compiler rejects is a plain syntax error",
+                       lambda a: z3.BoolVal((a.exc.pycls is not None and issubclass(a.exc.pycls, rd.UnexpectedEOFError)) == (a.post.st.ghost.get("inner_exc") == "eof")))
+    c.replay(lambda m, ctx, ob: STRLIT_REPLAY)
+    c.replay_without_model = True
+
+    # ---- #uuid: likewise
+    def uuid_setup(eng, st):
+        def parse(e, s, a, k):
+            # trusted: uuid.UUID over the formatted argument returns a UUID or raises ValueError (TypeError is allowed for as well)
+            r = V.fresh_val("uuid")
+            s.assume(e.external_ref_fact(s, r))
+            yield s, SV(r)
+            for exc in (ValueError, TypeError):
+                yield s.copy(), Raise(Exc(exc, ("bad uuid",), note="raised by the UUID parser"))
+
+        eng.models[id(langutil_.uuid_from_str)] = Model("langutil.uuid_from_str (trusted: UUID or ValueError/TypeError)", parse)
+
+    c = pack.contract("basilisp.lang.reader:_uuid_from_str")
+    c.setup(uuid_setup)
+    c.raises(rd.SyntaxError)
+    c.ensures("", lambda a: z3.BoolVal(True))
+    c.replay(lambda m, ctx, ob: STRLIT_REPLAY)
+    c.replay_without_model = True
+
     # ---- numbers: whatever digits, signs, letters and dots follow, reading a number ends in a number, a symbol or a syntax error
     import re as _re
     import decimal as _dec
     import fractions as _fr
+
+    DEC_OF = z3.Function("decimal_of_text", z3.StringSort(), z3.IntSort())
 
     class _Match:  # stand-in for re.Match
         def group(self, i):
@@ -1407,7 +1525,12 @@ def add_prefix_readers(pack):
             yield s2, None
 
         eng.method_models[(_re.Pattern, "fullmatch")] = Model("<number pattern>.fullmatch (a match object or None)", fullmatch)
-        eng.method_models[(_Match, "group")] = Model("Match.group (a string)", lambda e, s, a, k: iter([(s, SV(V.mk_str(z3.String(V.fresh_name("group")))))]))
+        def group(e, s, a, k):
+            g_ = V.mk_str(z3.String(V.fresh_name("group")))
+            s.ghost["groups"] = list(s.ghost.get("groups", [])) + [g_]
+            yield s, SV(g_)
+
+        eng.method_models[(_Match, "group")] = Model("Match.group (a string)", group)
 
         def groups(e, s, a, k):
             if s.ghost.get("matched") is not rd.ratio_literal:
@@ -1438,8 +1561,11 @@ def add_prefix_readers(pack):
         eng.models[id(_bi.float)] = Model("float(<digits[.digits]>) (always parses; out of range gives inf)", lambda e, s, a, k: iter([(s, SV(V.Val.flt(z3.Int(V.fresh_name("parsed_float")))))]))
 
         def decimal_(e, s, a, k):
+            # trusted: decimal.Decimal(text) is the exact decimal the text denotes (no rounding to a context) - DEC_OF(text)
             s2 = s.copy()
-            yield s, SV(V.Val.dec(z3.Int(V.fresh_name("parsed_decimal"))))
+            arg = e.lift(a[0], s)
+            s.ghost["decimal_arg"] = arg
+            yield s, SV(V.Val.dec(DEC_OF(V.Val.s(arg))))
             if s2.ghost.get("matched") is rd.float_literal:
                 yield s2, Raise(Exc(_dec.InvalidOperation, ("bad decimal",), note="(the code guards this call)"))
 
@@ -1447,7 +1573,9 @@ def add_prefix_readers(pack):
         eng.models[id(_bi.complex)] = Model("complex(0, x)", lambda e, s, a, k: iter([(s, SV(V.Val.cplx(z3.Int(V.fresh_name("imaginary")))))]))
 
         def join_any(e, s, a, k):
-            yield s, SV(V.mk_str(z3.String(V.fresh_name("token"))))
+            t_ = V.mk_str(z3.String(V.fresh_name("token")))
+            s.ghost["token"] = t_
+            yield s, SV(t_)
 
         eng.method_models[(str, "join")] = Model("''.join(chars) (some string)", join_any)
 
@@ -1497,7 +1625,24 @@ def add_prefix_readers(pack):
 
     c.loop(0, invariant=num_inv, frame=["_idx"], lists=True, ghost=("n_read",), aux=("dqv", "dqn"))
     c.loop(1, invariant=num_inv_pushback, frame=["_idx"], lists=True, ghost=("n_read",), aux=("dqv", "dqn"))
-    c.ensures("", lambda a: z3.BoolVal(True))
+    # (C03 needs this of the reader: the printer writes large and small floats in scientific notation, 1e+16, and they must come back as floats)
+    c.ensures("a token in scientific notation reads as a float - or as a decimal when it carries the M suffix - never as an integer",
+              lambda a: z3.BoolVal(True) if a.post.st.ghost.get("matched") is not rd.scientific_notation_literal else z3.Or(V.is_flt(a.result), V.is_dec(a.result)))
+
+    def dec_post(a):
+        g = a.post.st.ghost
+        if g.get("matched") not in (rd.float_literal, rd.scientific_notation_literal):
+            return z3.BoolVal(True)
+        tok = V.Val.s(g["token"])
+        body = z3.SubString(tok, 0, z3.Length(tok) - 1)  # the token without its last character, the M
+        arg = g.get("decimal_arg")
+        if arg is None:
+            return z3.Not(V.is_dec(a.result))
+        texts = [V.Val.s(x) for x in g.get("groups", [])[:1]] + [body]
+        return z3.And(a.result == V.Val.dec(DEC_OF(V.Val.s(arg))), z3.Or(*[V.Val.s(arg) == t_ for t_ in texts]))
+
+    c.ensures("a token with the M suffix reads as exactly the decimal its text denotes: decimal.Decimal of the digits (the pattern's first group, or the token without the M), "
+              "not a value rounded to some context's precision", dec_post)
     c.replay(lambda m, ctx, ob: NUM_REPLAY)
     c.replay_without_model = True
 
@@ -1573,6 +1718,90 @@ def add_prefix_readers(pack):
     c.requires("the stream reader is well-formed and stands on the { of #{", lambda a: z3.And(WF(a.eng, a.pre.st, reader_of(a)), CH(pos(a.pre.st, reader_of(a))) == V.mk_str("{")))
     c.raises(rd.SyntaxError)
     c.ensures("", lambda a: z3.BoolVal(True))
+    c.replay(lambda m, ctx, ob: STRLIT_REPLAY)
+    c.replay_without_model = True
+
+    # ---- {...}: the pairs of a map are validated (duplicate or unhashable key, a value missing) only once every element has been read
+    #      and the closing brace consumed; until then the text ending is "more input needed" whatever the pairs read so far look like
+    from basilisp.lang import map as lmap_
+    from basilisp import util as util_
+    from pyvc.loops import SymIter as _SymIter
+
+    def map_setup(eng, st):
+        psetup(eng, st)
+        eng.class_id(lmap_.PersistentMap)
+
+        def read_elems(e, s, a, k):
+            # __read_map_elems is a generator: nothing is read until it is consumed.  It stands here for "the elements up to the closing brace".
+            yield s, SV(V.fresh_val("map_elems_generator"), hint=_ElemsGen)
+
+        class _ElemsGen:  # stand-in for the generator object
+            pass
+
+        eng.class_id(_ElemsGen)
+        eng.models[id(rd.__dict__["__read_map_elems"])] = Model("__read_map_elems (a generator: consumed by whoever iterates it)", read_elems)
+
+        def list_(e, s, a, k):
+            src = a[0]
+            if not (isinstance(src, SV) and src.hint is _ElemsGen):
+                raise Unsupported("list() of something other than the element generator")
+            # consuming the generator reads every element and the closing brace - or fails on the way: by the contracts of _read_next
+            # and __read_map_elems, with UnexpectedEOFError when the text ends first, with a syntax error for a malformed element
+            s2, s3 = s.copy(), s.copy()
+            elems = z3.Const(V.fresh_name("map_elements"), V.ValSeq)
+            lst_ = e.alloc(s, list)
+            s.lists = z3.Store(s.lists, V.Val.a(lst_.t), elems)
+            s.ghost["map_closed"] = True
+            yield s, lst_
+            s2.ghost["inner_exc"] = "eof"
+            yield s2, Raise(Exc(rd.UnexpectedEOFError, ("Unexpected EOF in map",), note="the text ended before the closing brace"))
+            s3.ghost["inner_exc"] = "syntax"
+            yield s3, Raise(Exc(rd.SyntaxError, ("malformed element",), note="malformed element"))
+
+        eng.models[id(_bi.list)] = Model("list(<the element generator>) (reads all elements and the closing brace, or raises)", list_)
+
+        def partition(e, s, a, k):
+            # trusted (itertools.batched / util.partition): consecutive pairs in order; a last batch of one element makes the loop's
+            # `k, v = batch` unpacking fail with ValueError once the pairs before it have been handled
+            src, n = a
+            if n != 2 or not (isinstance(src, SV) and src.hint is list):
+                raise Unsupported("partition of something other than a list, or not in pairs")
+            L = z3.Select(s.lists, V.Val.a(src.t))
+            half = z3.Int(V.fresh_name("pairs"))
+            s_odd = s.copy()
+            s.assume(half >= 0, z3.Length(L) == 2 * half)
+            it = _SymIter(None, label="pairs", length=half, item=lambda e_, s_, i: (SV(z3.simplify(L[2 * i])), SV(z3.simplify(L[2 * i + 1]))))
+            yield s, it
+            s_odd.assume(half >= 0, z3.Length(L) == 2 * half + 1)
+            it2 = _SymIter(None, label="pairs and a single", length=half, item=lambda e_, s_, i: (SV(z3.simplify(L[2 * i])), SV(z3.simplify(L[2 * i + 1]))))
+            it2.on_exhaust = Exc(ValueError, ("not enough values to unpack (expected 2, got 1)",))
+            yield s_odd, it2
+
+        eng.models[id(util_.partition)] = Model("partition(list, 2) (trusted: consecutive pairs; a single last element fails to unpack)", partition)
+        if rd.partition is not util_.partition:
+            eng.models[id(rd.partition)] = eng.models[id(util_.partition)]
+        eng.models[id(lmap_.map)] = Model("basilisp.lang.map.map (trusted: builds a map from a dict of hashable keys)", lambda e, s, a, k: iter([(s, e.alloc(s, lmap_.PersistentMap))]))
+
+    c = pack.contract("basilisp.lang.reader:_read_map")
+    c.param("ctx", OBJ(RC))
+    c.param_value("namespace", lambda eng, st: None)
+    c.setup(map_setup)
+    c.requires("the stream reader is well-formed and stands on the opening brace", lambda a: z3.And(WF(a.eng, a.pre.st, reader_of(a)), CH(pos(a.pre.st, reader_of(a))) == V.mk_str("{")))
+    c.raises(rd.SyntaxError)
+    c.loop(0, invariant=lambda ctx: [("d is this call's own dict", z3.BoolVal(True))], frame=[], lists=False, aux=("pdm", "pdd"))
+
+    def map_raise(a):
+        g = a.post.st.ghost
+        is_eof = a.exc.pycls is not None and issubclass(a.exc.pycls, rd.UnexpectedEOFError)
+        if g.get("inner_exc") == "eof":
+            return z3.BoolVal(is_eof)
+        if g.get("inner_exc") == "syntax":
+            return z3.BoolVal(True)
+        return z3.BoolVal(bool(g.get("map_closed")) and not is_eof)
+
+    c.ensures_on_raise("the text ending inside the map is UnexpectedEOFError; the map's own complaints (duplicate or unhashable key, a value missing) are plain syntax errors "
+                       "raised only after every element and the closing brace have been read", map_raise)
+    c.ensures("a map is returned only after the closing brace has been read", lambda a: z3.BoolVal(bool(a.post.st.ghost.get("map_closed"))))
     c.replay(lambda m, ctx, ob: STRLIT_REPLAY)
     c.replay_without_model = True
 
@@ -1807,6 +2036,23 @@ for text in ["1.5e999", "-2.5E400", "1.0e309", "1e5", "1.5e3", "1.5e-999", "2e-3
         pass
     except BaseException as e:
         bad.append("%r: reading raised %s: %s" % (text, type(e).__name__, e))
+for text in ["1e16", "1e+16", "2e6", "-3E2", "1e-3", "0e0", repr(1e16), repr(1e22), repr(-1.5e300), repr(5e-324), repr(1.7976931348623157e308)]:
+    try:
+        got = list(reader.read_str(text))[0]
+        if type(got) is not float or got != float(text):
+            bad.append("%r reads as %r (%s), not as the float %r" % (text, got, type(got).__name__, float(text)))
+    except BaseException as e:
+        bad.append("%r: reading raised %s: %s" % (text, type(e).__name__, e))
+import decimal
+for text in ["0M", "1.50M", "-3.25M", "1E+3M", "-2.5e-7M", "3.14159265358979323846264338327950288419716939937510M", "-123456789012345678901234567890.123456789M",
+             "100000000000000000000000000000000000001M", "1.00000000000000000000000000000000000001e5M"]:
+    try:
+        got = list(reader.read_str(text))[0]
+        want = decimal.Decimal(text[:-1])
+        if type(got) is not decimal.Decimal or got.as_tuple() != want.as_tuple():
+            bad.append("%r reads as %r, not as the exact decimal %r" % (text, got, want))
+    except BaseException as e:
+        bad.append("%r: reading raised %s: %s" % (text, type(e).__name__, e))
 for line in bad[:10]:
     print(line)
 print("REPRODUCED" if bad else "not reproduced")
@@ -1835,6 +2081,11 @@ for text, want in (('"abc', "incomplete"), ('"ab\\', "incomplete"), ('"ab\\u12',
                    ('#b "\\xzz"', "malformed"), ('#b "\u00e9"', "malformed"), ('#b 5', "malformed"), ('#b "a\\x41\\n"', "ok"),
                    ("\\", "incomplete"), ("\\a", "ok"), ("\\newline", "ok"), ("#inst 5", "malformed"), ("#inst \"x\"", "malformed"), ("#inst \"2020-01-01T00:00:00Z\"", "ok"),
                    ("#{#py []}", "malformed"), ("#{#py {} 1}", "malformed"), ("#{1 #py #{2}}", "malformed"), ("#{#py (1)}", "ok"), ("#{1 2}", "ok"),
+                   ("#uuid 1", "malformed"), ("#uuid nil", "malformed"), ("#uuid \"zz\"", "malformed"), ("#uuid \"6ba7b810-9dad-11d1-80b4-00c04fd430c8\"", "ok"), ("#uuid", "incomplete"),
+                   ("#true 1", "malformed"), ("#nil 1", "malformed"), ("#false", "malformed"), ("#nil", "malformed"), ("#a", "incomplete"), ("#a 1", "malformed"),
+                   ("{:a 1 :a 2", "incomplete"), ("{:a 1 :a 2}", "malformed"), ("{:a 1 :b", "incomplete"), ("{:a}", "malformed"), ("{#py [] 1", "incomplete"), ("{#py [] 1}", "malformed"),
+                   ("(def m {:a 1 :b [1 2] :a 2 :z", "incomplete"), ("#:ns{:a 1 :ns/a 2", "incomplete"), ("{:a 1 :b 2}", "ok"), ("{}", "ok"),
+                   ('#"a{99999999999999999999}"', "malformed"), ('#"(a"', "malformed"), ('#"a+"', "ok"), ('#"a', "incomplete"),
                    ("#queue 1", "malformed"), ("#queue nil", "malformed"), ("#queue 1.5", "malformed"), ("#queue", "incomplete"), ("#queue (1 2)", "ok"), ("#queue [1]", "ok"), ("#queue ()", "ok")):
     got = kind(text)
     if got != want:
